@@ -15,7 +15,7 @@ from .. import common as cm
 from ..tables import _module_consts
 
 PID = "C05"
-PROOF_FILES = ["theories/Props/C05.v", "theories/Proofs/AabbTreeProofs.v"]
+PROOF_FILES = ["theories/Props/C05.v", "theories/Proofs/AabbTreeProofs.v", "theories/Proofs/AabbTreeInsert.v", "theories/Proofs/AabbTreeQuery.v"]
 
 HEADER = """From Coq Require Import List ZArith PrimFloat.
 From D3 Require Import Model.AabbTree Model.AabbTreeRun.
